@@ -318,7 +318,8 @@ def _clause(cfg):
 
 
 def _run_orient(case, ctx):
-    from sasmodels.direct_model import call_kernel
+    from sasmodels.direct_model import call_kernel, get_mesh
+    from sasmodels.details import make_kernel_args
     r = R()
     name = case["model"]
     m = build.model(name)
@@ -382,6 +383,8 @@ def _run_orient(case, ctx):
         if cfg["kernel"] == "mag":
             # drives the Imagnetic instantiation of the rotation/jitter code; 1e-300 leaves every SLD unchanged
             pars[sld_names[0] + "_M0"] = 1e-300
+            if not make_kernel_args(k1, get_mesh(info, pars, dim="2d"))[2]:
+                raise HarnessError("%s: M0=1e-300 did not select the magnetic kernel" % name)
             br.append("magnetic-kernel")
         br.append("jitter-angles:%d" % njit)
         if cfg["theta"] in (0.0, 180.0):
